@@ -254,9 +254,13 @@ hand and that no constant captures are measured on the running code by tools/tab
 every run: the binary branch is a loop (more coalesced messages than the interpreter allows nested
 calls are delivered - `binLoop`), the hand-off re-joins exactly the bytes that follow the final line
 (`lines[lineno + 1:] + [buffer]` - `lineFinish`), and the remainder length check is not applied to
-message bytes behind the final line (`for ... else` position - `lineFinish`, case `done` only). -/
+message bytes behind the final line (`for ... else` position - `lineFinish`, case `done` only).  A
+fourth fact is read from the AST: `dataReceived` does not mention `MAX_MSG_LENGTH` at all - the framing
+model has no size limit, so code that starts to apply one while framing breaks this theorem (and is
+exercised at a scaled-down limit by the harness stream `limit-scaled`). -/
 theorem model_control_flow_matches_source :
-    binaryBranchIterates = true ∧ handoffRejoinsRest = true ∧ remainderCheckAfterLoop = true := by decide
+    binaryBranchIterates = true ∧ handoffRejoinsRest = true ∧ remainderCheckAfterLoop = true ∧
+    dataReceivedUsesMaxMsgLength = false := by decide
 
 /-! ## Witnesses: the models of the code before the repairs violate the property -/
 
